@@ -459,6 +459,45 @@ pub fn execute(ctx: &mut Ctx, lines: &[String]) -> Vec<String> {
                     Ok(Err(e)) => format!("other-error {e:?}"),
                 }
             }
+            ["ENVPARSE", id, mode, env, given, _rxe, _rxg] => {
+                // the specification taken from RUST_LOG (`LogSpecification::env` / `env_or_parse`, the
+                // routes behind `Logger::try_with_env*`); the variable is set for the call only
+                let given = unhexs(given).unwrap();
+                let envv = if *env == "~" { None } else { Some(unhexs(env).unwrap()) };
+                ctx.report.count(&format!("op.ENVPARSE.{mode}.{}", if envv.is_some() { "set" } else { "unset" }));
+                match &envv {
+                    Some(v) => std::env::set_var("RUST_LOG", v),
+                    None => std::env::remove_var("RUST_LOG"),
+                }
+                let r = catch_unwind(AssertUnwindSafe(|| {
+                    if *mode == "env" { LogSpecification::env() } else { LogSpecification::env_or_parse(&given) }
+                }));
+                // the same through the logger's own entry points: they must agree on Ok/Err
+                let lr = catch_unwind(AssertUnwindSafe(|| {
+                    if *mode == "env" { flexi_logger::Logger::try_with_env().is_ok() } else { flexi_logger::Logger::try_with_env_or_str(&given).is_ok() }
+                }));
+                std::env::remove_var("RUST_LOG");
+                st.abs.intended.insert(id.to_string(), None);
+                match (r, lr) {
+                    (Err(_), _) | (_, Err(_)) => {
+                        ctx.report.fail(&case_id, "parse-panics", &format!("line {li}: {mode} panicked with RUST_LOG={envv:?}, given {given:?}"));
+                        "panic".into()
+                    }
+                    (Ok(Ok(spec)), Ok(lok)) => {
+                        if !lok { ctx.report.fail(&case_id, "logger-env-route-differs", &format!("line {li}: LogSpecification::{mode} is Ok but Logger::try_with_{mode} is Err (RUST_LOG={envv:?}, given {given:?})")); }
+                        let a = format!("ok {}", spec_str(&spec));
+                        st.specs.insert(id.to_string(), spec);
+                        a
+                    }
+                    (Ok(Err(flexi_logger::FlexiLoggerError::Parse(_, spec))), Ok(lok)) => {
+                        if lok { ctx.report.fail(&case_id, "logger-env-route-differs", &format!("line {li}: LogSpecification::{mode} is Err but Logger::try_with_{mode} is Ok (RUST_LOG={envv:?}, given {given:?})")); }
+                        let a = format!("err {}", spec_str(&spec));
+                        st.specs.insert(id.to_string(), spec);
+                        a
+                    }
+                    (Ok(Err(e)), _) => format!("other-error {e:?}"),
+                }
+            }
             ["DISPLAY", id] | ["DISPLAYSORTED", id] => {
                 let s = &st.specs[*id];
                 let text = s.to_string();
@@ -1511,6 +1550,26 @@ pub fn gen_c17(tier: &str, seed: u64) -> Vec<Vec<String>> {
                 for tg in ["", "a", "crate1::mod", "ab", "info"] {
                     for l in [1u64, 3, 5] { c.push(format!("EN s {l} {}", hexs(tg))); }
                 }
+            }
+        }
+        if r.chance(1, 3) {
+            // the specification taken from the environment (RUST_LOG unset / well-formed / malformed)
+            // with and without a fallback string; decisions of the result on a small grid
+            let rxbit = |t: &str| -> u8 { t.split('/').nth(1).map_or(1, |x| u8::from(regex::Regex::new(x).is_ok())) };
+            let pick = |r: &mut Rng| -> String {
+                match r.below(5) {
+                    0 => { let n = r.range(0, 8); let mut t = String::new(); for _ in 0..n { let a: &str = *r.pick(&alphabet[..]); t.push_str(a); } t }
+                    1 => { let (t, _, _) = gen_spec_string(r); format!("{t}/[") }
+                    _ => gen_spec_string(r).0,
+                }
+            };
+            let envv = if r.chance(1, 4) { None } else { Some(pick(&mut r)) };
+            let given = pick(&mut r);
+            let mode = if r.chance(1, 3) { "env" } else { "envor" };
+            c.push(format!("ENVPARSE e {mode} {} {} {} {}", envv.as_ref().map_or("~".to_string(), |v| hexs(v)), hexs(&given),
+                envv.as_ref().map_or(1, |v| rxbit(v)), rxbit(&given)));
+            for tg in ["", "a", "crate1::mod", "b", "info"] {
+                for l in [1u64, 3, 5] { c.push(format!("EN e {l} {}", hexs(tg))); }
             }
         }
         c.push("END".into());
